@@ -76,12 +76,12 @@ def add_blank_and_comments(toks, rng, p=0.3):
                 # directly after the last token (also after a number: `ld a,5;note`) or after a space
                 if rng.random() < 0.6 or (out and out[-1][0] in ("str", "chr")):
                     out.append(("ws", " "))
-                out.append(("com", rng.choice(["; c", ";", ";note", "; ld a, 1", "; \"quote", "; é @db `"])))
+                out.append(("com", rng.choice(["; c", ";", ";note", "; ld a, 1", "; \"quote", "; é @db `", "; dir c:\\tmp\\", ";\\"])))
             out.append((k, t))
             if not cont and rng.random() < p:
                 out.append(("nl", "\n"))
             if not cont and rng.random() < p / 2:
-                out.append(("com", "; whole-line comment"))
+                out.append(("com", rng.choice(["; whole-line comment", "; ends in a backslash \\", "; /\\"])))
                 out.append(("nl", "\n"))
             if not cont and rng.random() < p / 3:
                 out.append(("ws", "  \t"))
